@@ -17,7 +17,8 @@ RULE = (
     "prioritize in {F,T}) on manager 1 (or 1 and 2); state = tuple(plugins(type)) per manager (fully observable, so merging "
     "equal states is sound); BFS to closure; in EVERY state ALL queries (bare m1,m2,m3,nope,slsqp,default; explicit a/m1, "
     "A/m2, b/m3, c/m1, zz/m1, scipy/slsqp, SciPy/SLSQP, external/slsqp, external/m1) are evaluated through get_plugin and "
-    "is_supported, twice, and the state is re-read (side-effect freedom); every add (including duplicates) is checked "
+    "is_supported, twice, and the state is re-read (side-effect freedom); the same names are then asked for every OTHER "
+    "plug-in type and compared with a fresh manager; every add (including duplicates) is checked "
     "against the model. Plus a no-merge run over ALL sequences of adds and lookups up to a depth. A state is one explored "
     "case; all are non-trivial."
 )
@@ -188,9 +189,46 @@ def check_state(obj: dict[str, Any], hist: list[Any], queries: list[str]) -> lis
                     continue
                 if sup != (got is not None):
                     out.append(("is_supported-disagrees-with-get", {"query": q, "is_supported": sup, "get": got}))
+    # Lookups for one plug-in type must not influence another type: the same bare / explicit names are asked for
+    # every other type and compared with a fresh manager that was never asked anything else.
+    cross_queries = ["m1", "m2", "default", "slsqp", "norm", "mean", "tracker", "optimizer", "sort-objective", "scipy/default", "a/m1"]
+    for mgr in obj["mgrs"]:
+        for other in TYPES:
+            if other == ptype:
+                continue
+            for q in cross_queries:
+                got = _lookup_name(mgr, other, q)
+                expected = _fresh_answer(other, q)
+                if got != expected:
+                    out.append(("lookup-for-another-plugin-type-affected", {"type": other, "query": q, "observed": got, "expected": expected,
+                                                                           "history": hist, "explored_type": ptype}))
     if observe_state(obj) != state_before:
         out.append(("lookup-changed-state", {"history": hist}))
     return out
+
+
+def _lookup_name(mgr: Any, ptype: str, query: str) -> Any:
+    from ropt.exceptions import ConfigError
+
+    try:
+        found = mgr.get_plugin(ptype, query)
+    except ConfigError:
+        return None
+    except Exception as exc:  # noqa: BLE001
+        return f"raised:{type(exc).__name__}"
+    return next((n for n, p in mgr.plugins(ptype) if p is found), f"foreign:{type(found).__name__}")
+
+
+_FRESH_ANSWERS: dict[Any, Any] = {}
+
+
+def _fresh_answer(ptype: str, query: str) -> Any:
+    from ropt.plugins import PluginManager
+
+    key = (ptype, query)
+    if key not in _FRESH_ANSWERS:
+        _FRESH_ANSWERS[key] = _lookup_name(PluginManager(), ptype, query)
+    return _FRESH_ANSWERS[key]
 
 
 def explore(ptype: str, n_mgr: int, names: list[str], tags: list[str], depth: int, merge: bool, lookups: list[str] | None,
